@@ -230,6 +230,10 @@ package ice
 //@   props C03 C02
 //@   opt nosafety
 //@   site call append#1 assert records-the-local-candidate-the-request-leaves-from: len(arg1) == 1 && arg1[0].source == local
+//@   site store pendingBindingRequests#1 assert C02 C03 the-transaction-is-recorded-as-pending-before-the-request-leaves: len(value) >= 1 && object == a
+//@   ghostvar recorded bool = false
+//@   site store pendingBindingRequests#1 ghost recorded := true
+//@   site call sendSTUN#1 assert C02 C03 C05 sends-exactly-the-request-it-recorded-from-this-pair: recorded && arg1 == msg && arg2 == local && arg3 == remote
 //@   ghostvar ctl bool = false
 //@   site call Contains#2 assert C05 asks-the-message-for-the-controlling-attribute: arg0 == msg && arg1 == stun.AttrICEControlling
 //@   site call Contains#2 ghost ctl := result
